@@ -112,4 +112,23 @@ instance decLexLE : (a b : List Nat) → Decidable (lexLE a b)
     have := decLexLE as bs
     unfold lexLE; exact inferInstance
 
+
+/-- the pattern text with the token texts `vs` substituted for the tokens: `lit₀ v₁ lit₁ v₂ lit₂ …` -/
+def instantiate (p : Pat) (vs : List Bytes) : Bytes :=
+  p.pre ++ ((vs.zip p.toks).map fun vt => vt.1 ++ vt.2.lit).flatten
+
+/-- does the pattern end in a token without trailing literal (which then runs to the end of the line)? -/
+def endsOpen (ts : List Tok) : Bool :=
+  match ts.getLast? with
+  | some t => t.lit == []
+  | none => false
+
+/-- **The line is an instance of the pattern** – the specification without positions: somewhere in
+the line stands the pattern text with SOME texts in place of its tokens,
+`line = before ++ lit₀ v₁ lit₁ … vₙ litₙ ++ after`, where nothing may follow (`after` empty) when the
+last token has no trailing literal. -/
+def IsInstance (p : Pat) (line : Bytes) : Prop :=
+  ∃ (before : Bytes) (vs : List Bytes) (after : Bytes), vs.length = p.toks.length ∧
+    line = before ++ instantiate p vs ++ after ∧ (endsOpen p.toks = true → after = [])
+
 end Rare.C12
